@@ -625,6 +625,24 @@ func (s *Store) resolveWritePath(name string) (string, error) {
 		if strings.HasPrefix(rel, "../") || rel == ".." {
 			return "", ErrPathTraversalDisallowed
 		}
+		// the path must stay in the working directory after the symbolic
+		// links on it (for example left by an unpacked archive) are resolved
+		realBase, err := evalExistingPath(base)
+		if err != nil {
+			return "", err
+		}
+		realTarget, err := evalExistingPath(target)
+		if err != nil {
+			return "", err
+		}
+		rel, err = filepath.Rel(realBase, realTarget)
+		if err != nil {
+			return "", ErrPathTraversalDisallowed
+		}
+		rel = filepath.ToSlash(rel)
+		if strings.HasPrefix(rel, "../") || rel == ".." {
+			return "", ErrPathTraversalDisallowed
+		}
 	}
 	if s.DisableOverwrite {
 		if _, err := os.Stat(path); err == nil {
@@ -634,6 +652,30 @@ func (s *Store) resolveWritePath(name string) (string, error) {
 		}
 	}
 	return path, nil
+}
+
+// evalExistingPath resolves the symbolic links of the longest existing prefix
+// of path and appends the remaining, not yet existing, elements.
+func evalExistingPath(path string) (string, error) {
+	existing, rest := path, ""
+	for {
+		if _, err := os.Lstat(existing); err == nil {
+			break
+		} else if !os.IsNotExist(err) {
+			return "", err
+		}
+		parent := filepath.Dir(existing)
+		if parent == existing {
+			break
+		}
+		rest = filepath.Join(filepath.Base(existing), rest)
+		existing = parent
+	}
+	resolved, err := filepath.EvalSymlinks(existing)
+	if err != nil {
+		return "", err
+	}
+	return filepath.Join(resolved, rest), nil
 }
 
 // status returns the nameStatus for the given name.
